@@ -8,13 +8,14 @@ import json
 class Facts:
     def __init__(self, doc):
         from .normalize import (canonicalize_generics, transparent_helpers, canonical_apis, expand_combinators, eliminate_try,
-                                thread_known_discriminants, expand_int_try_from, expand_for_each, pinned_field_names, expand_result_ok, expand_find_map, pinned_adt_paths, expand_closure_calls)
+                                thread_known_discriminants, expand_int_try_from, expand_for_each, pinned_field_names, expand_result_ok, expand_find_map, pinned_adt_paths, expand_closure_calls, expand_array_try_from)
         doc = canonicalize_generics(doc)
         doc = pinned_adt_paths(doc)
         doc = pinned_field_names(doc)
         doc = transparent_helpers(doc)
         doc = canonical_apis(doc)
         doc = expand_int_try_from(doc)
+        doc = expand_array_try_from(doc)
         doc = expand_closure_calls(doc)
         doc = expand_for_each(doc)
         doc = expand_find_map(doc)
